@@ -356,7 +356,8 @@ def handleH (d : DSt) (n : Nat) (line : String) (pre post : List String) : IO DS
         | _, _ => false
       let m1r := resolveMacros look lvl esc (.str s)
       let m2r := resolveMacros (cacheLookup cache) lvl esc (.str s)
-      if !same then
+      let unsup := (match m1r with | .error .unsupported => true | _ => false) || (match m2r with | .error .unsupported => true | _ => false)
+      if !same && !unsup then
         let explains := (match m1r, r1 with | .ok (v, _), .ok (a, _) => showVal v == a | .error e, .error k => errName e == k | _, _ => false) &&
                         (match m2r, r2 with | .ok (v, _), .ok (a, _) => showVal v == a | .error e, .error k => errName e == k | _, _ => false)
         d := { d with cachedDiverged := d.cachedDiverged + 1 }
@@ -373,6 +374,12 @@ def agreesCmd (look : Bytes → Lookup) (cmd : Cmd) (args : Option (List ArgSpec
   | .error e, .error k => errName e == k
   | _, _ => false
 
+/-- Inputs outside the model (arrays or number-like texts in `set_if`, nested arrays): the clause
+    `cached_equals_direct` cannot be classified there and is not evaluated. -/
+def modelUnsupported (look : Bytes → Lookup) (cache : List (Bytes × Val)) (cmd : Cmd) (args : Option (List ArgSpec)) : Bool :=
+  (match resolveArguments look 0 cmd args with | .error .unsupported => true | _ => false) ||
+  (match resolveArguments (cacheLookup cache) 0 cmd args with | .error .unsupported => true | _ => false)
+
 def handleK (d : DSt) (n : Nat) (line : String) (pre post : List String) : IO DSt := do
   match pre, post with
   | svc :: rest, [st1, c1, ch, st2, c2] =>
@@ -385,7 +392,7 @@ def handleK (d : DSt) (n : Nat) (line : String) (pre post : List String) : IO DS
         | .ok (a, _), .ok (b, _) => a == b
         | .error _, _ => true
         | _, _ => false
-      if !same then
+      if !same && !modelUnsupported look cache cmd args then
         let explains := agreesCmd look cmd args r1 && agreesCmd (cacheLookup cache) cmd args r2
         d := { d with cachedDiverged := d.cachedDiverged + 1 }
         d ← specfail d n .cachedEqualsDirect (divergenceClass look 14 cache explains)
@@ -522,7 +529,7 @@ def handleY (d : DSt) (n : Nat) (line : String) (pre post : List String) : IO DS
         -- specification on the implementation's observations
         if fillRan then d ← specfail d n .fillNotRun
         let same := o1.recorded.isNone || (o1.ran == o2.ran && o1.argv == o2.argv && o1.state == o2.state && o1.out == o2.out)
-        if !same then
+        if !same && !modelUnsupported look cache cmd args then
           let r1 : Except String (String × String) := match o1.recorded with | some c => .ok (showCmdOut c, "") | none => .error "required"
           let r2 : Except String (String × String) := match o2.recorded with | some c => .ok (showCmdOut c, "") | none => .error "required"
           let explains := agreesCmd look cmd args r1 && agreesCmd (cacheLookup cache) cmd args r2
